@@ -401,10 +401,19 @@ func (o *ostate) checkPE(m map[string]string, out string, add func(fp, desc stri
 	if int64(len(ids)) != n {
 		return
 	}
+	// the proposer gets as much pending evidence as fits: the next pending item must not fit
+	if max >= 0 && exact && len(ids) < len(o.pend) && o.uniqueKey(o.pend[len(ids)]) {
+		if e := o.byKey(o.pend[len(ids)]); e != nil {
+			sz, _ := strconv.ParseInt(e.m["sz"], 10, 64)
+			if sum+1+int64(varintLen(uint64(sz)))+sz <= max {
+				add("pool.PendingEvidence.returns-less-than-fits", fmt.Sprintf("PendingEvidence(%d) returned %d of %d pending items (%d bytes) although the next one fits", max, len(ids), len(o.pend), sum))
+			}
+		}
+	}
 	if exact && sum != bytes && len(ids) > 0 {
 		add("pool.PendingEvidence.wrong-byte-count", fmt.Sprintf("PendingEvidence reported %d bytes for items whose list encoding takes %d", bytes, sum))
 	}
-	if max == -1 && o.size > 0 && len(ids) != len(o.pend) {
+	if max == -1 && len(ids) != len(o.pend) {
 		add("pool.PendingEvidence.unbounded-misses-items", "PendingEvidence(-1) did not return all pending items: "+out)
 	}
 }
